@@ -49,7 +49,9 @@ string do_op (string s);
 string run_op (string op) {
   string r;
   VL ("do " + oid + " " + op);
+  REG->push_actor (oid);
   r = do_op (op);
+  REG->pop_actor ();
   if (this_object ()) REG->snap ();   // after destruct(this_object()) the registry prints the snapshot
   return r;
 }
